@@ -1571,6 +1571,17 @@ theorem alignTensor_sem (x : Tensor α) (newInputs : Inputs) (expand : Bool)
       exact hval env ev henv hev
 
 
+/-- `output=None`: the event shape is inferred from the leftmost key of `dim_to_name`, after which
+    the conversion is the one with that explicit output (so all theorems above apply to it). -/
+theorem toFunsor_output_none (x : Arr α) (dtype : Option Nat) (d2n : List (Int × String))
+    (hd : d2n ≠ []) (m : Int) (hm : minInt (d2n.map (·.1)) = some m) :
+    toFunsor x none dtype (some d2n)
+      = toFunsor x (some (x.shape.drop (min (-m).toNat x.shape.length))) dtype (some d2n) := by
+  cases d2n with
+  | nil => exact absurd rfl hd
+  | cons e d => simp only [toFunsor, hm]
+
+
 /-! ### non-vacuity: the hypotheses are satisfiable, and are needed -/
 
 /-- A 1×2×3 array of distinct entries (row-major arange). -/
